@@ -971,3 +971,77 @@ K("c09k-bounds-keyword-order",
 K("c09k-new-valueerror-raise",
   ("parsers", "        raise ISO8601SyntaxError(\"time\", time_string)",
    "        raise ValueError(\"Invalid ISO 8601 time representation: %s\" % time_string)"))
+
+
+# ============================================================ R30 / R13d CLI ==
+B("c19-process-call-outside-try", ["C19"], ["R30"],
+  (lambda texts: _cli_move_out(texts)), canary=True)
+B("c19-handler-narrowed", ["C19"], ["R30", "R20"],
+  ("main", "    except ValueError as exc:\n        sys.exit(exc)",
+   "    except KeyError as exc:\n        sys.exit(exc)"))
+B("c19-option-never-consumed", ["C19"], ["R30"],
+  ("main", "                args.items[0],\n                args.print_format,\n            ):",
+   "                args.items[0],\n                None,\n            ):"))
+B("c19-calendar-choice-unknown", ["C19", "C15"], ["R30"],
+  ("main", "\"choices\": [\"360day\", \"365day\", \"366day\", \"gregorian\"],",
+   "\"choices\": [\"360day\", \"364day\", \"365day\", \"366day\", \"gregorian\"],"),
+  canary=True)
+B("c19-backslash-strip-removed", ["C19"], ["R30"],
+  ("datetimeoper", "            duration_str.replace('\\\\', ''))  # allows negative durations",
+   "            duration_str)  # allows negative durations"))
+B("c19-offsets2-strip-removed", ["C19"], ["R30"],
+  ("main", "    if args.offsets2:\n        args.offsets2 = [item.replace(\"\\\\\", \"\") for item in args.offsets2]\n", ""))
+B("c15-set-calendar-mode-conditional", ["C15", "C19"], ["R30"],
+  ("datetimeoper", "        self.set_calendar_mode(calendar_mode)",
+   "        if calendar_mode:\n            self.set_calendar_mode(calendar_mode)"))
+B("c19-utc-option-not-forwarded", ["C19"], ["R30"],
+  ("main", "        utc_mode=args.utc_mode,", "        utc_mode=False,"))
+B("c19-as-total-minutes-wrong-divisor", ["C19"], ["R30"],
+  ("datetimeoper", "options = {'S': time, 'M': time / 60, 'H': time / 3600}",
+   "options = {'S': time, 'M': time / 3600, 'H': time / 60}"))
+B("c19-offsets-swapped", ["C19"], ["R30"],
+  ("main", "                args.offsets1,\n                args.offsets2,\n                args.print_format,",
+   "                args.offsets2,\n                args.offsets1,\n                args.print_format,"))
+B("c19-max-results-off-by-one", ["C19"], ["R30"],
+  ("main", "                if len(outs) >= args.max_results:", "                if len(outs) > args.max_results:"))
+B("c19-parsed-format-not-kept", ["C19"], ["R30"],
+  ("datetimeoper", "                    time_point_str,\n                    dump_as_parsed=True)",
+   "                    time_point_str)"))
+B("c17-strftime-week-year", ["C17"], ["R13"],
+  ("dumpers", "        if not timepoint.truncated and timepoint.get_is_week_date():\n"
+              "            # No ISO week directives are supported: %Y is the calendar year\n"
+              "            timepoint = timepoint.to_calendar_date()\n", ""),
+  canary=True, note="revert of fix D5")
+K("c19k-extra-consumed-option",
+  ("main", "    if args.version_mode:\n        print(__version__)\n        return",
+   "    if args.version_mode:\n        print(__version__)\n        return None"))
+
+
+def _cli_move_out(texts):
+    src = texts["main"]
+    old = ("        else:\n"
+           "            time_point_str = None\n"
+           "            if args.items:\n"
+           "                time_point_str = args.items[0]\n"
+           "            out = date_time_oper.process_time_point_str(\n"
+           "                time_point_str, args.offsets1, args.print_format)\n"
+           "    except ValueError as exc:\n"
+           "        sys.exit(exc)\n"
+           "    else:\n"
+           "        print(out)\n")
+    new = ("        else:\n"
+           "            out = None\n"
+           "    except ValueError as exc:\n"
+           "        sys.exit(exc)\n"
+           "    else:\n"
+           "        if out is None:\n"
+           "            time_point_str = None\n"
+           "            if args.items:\n"
+           "                time_point_str = args.items[0]\n"
+           "            out = date_time_oper.process_time_point_str(\n"
+           "                time_point_str, args.offsets1, args.print_format)\n"
+           "        print(out)\n")
+    if src.count(old) != 1:
+        raise LookupError("main dispatch tail")
+    texts["main"] = src.replace(old, new)
+    return texts
